@@ -3,6 +3,7 @@ package pager
 import (
 	"fmt"
 	"syscall"
+	"time"
 
 	"github.com/superfly/litefs/verif/mount"
 	"github.com/superfly/litefs/verif/ref"
@@ -282,7 +283,13 @@ func (c *Conn) ExecWALTx(tx WalTx) (res TxResult, err error) {
 		return res, err
 	}
 	defer c.endRead()
-	if err = c.shmLock(2, WalWrite, 1); err != nil {
+	// the busy handler retries the WRITE lock
+	for deadline := time.Now().Add(c.busyTimeout()); ; time.Sleep(50 * time.Microsecond) {
+		if err = c.shmLock(2, WalWrite, 1); err != ErrBusy || time.Now().After(deadline) {
+			break
+		}
+	}
+	if err != nil {
 		return res, err
 	}
 	unlocked := false
